@@ -86,11 +86,15 @@ func Emit(o *Out) {
 }
 
 // Fatal reports a harness error (never a verdict).
+// ReportFd is the descriptor harness reports go to (1 unless a harness that captures the code's output at descriptor
+// level has moved the real standard output elsewhere).
+var ReportFd = 1
+
 func Fatal(f string, a ...any) {
 	// written to descriptor 1 itself: a harness that captures the code's output by
 	// re-pointing os.Stdout must not swallow its own error report
 	msg := fmt.Sprintf("HARNESS-ERROR "+f+"\n", a...)
-	if _, err := syscall.Write(1, []byte(msg)); err != nil {
+	if _, err := syscall.Write(ReportFd, []byte(msg)); err != nil {
 		fmt.Print(msg)
 	}
 	os.Exit(2)
